@@ -749,10 +749,14 @@ class ContractSet:
                 I.assign(c.expr(lv), I.ev(c.expr(src), sfr), sfr)
             for ev_name, src in spec.get("emits", {}).items():
                 try:
-                    v = self.snapshot(I, I.ev(c.expr(src), sfr), deep_inst=True)
+                    v = I.ev(c.expr(src), sfr)
                 except PyRaise as e:
                     raise Unsupported(f"emits of {c.target} raised {I.hobj(e.exc).cls.name}")
-                P.ghost.setdefault("events", {}).setdefault(ev_name, []).append(v)
+                if isinstance(v, VRef) and I.hobj(v).kind == "list":
+                    for x in I.hobj(v).items:
+                        P.ghost.setdefault("events", {}).setdefault(ev_name, []).append(self.snapshot(I, x, deep_inst=True))
+                else:
+                    P.ghost.setdefault("events", {}).setdefault(ev_name, []).append(self.snapshot(I, v, deep_inst=True))
             for n, src in spec.get("post", {}).items():
                 if "events(" in src:
                     continue
